@@ -135,6 +135,7 @@ class Summariser:
             if p.end == "unreachable":
                 continue
             out.add(self.path_key(p))
+        out.discard(("infeasible",))
         self.busy.discard(fn.id)
         self.cur_fn = saved_fn
         res = (fn.argc, frozenset(out))
@@ -171,6 +172,7 @@ class Summariser:
                     p = sym.subst_generics_path(p, dict(gmap))
                 self.upenv = caps
                 out.add(self.path_key(p))
+            out.discard(("infeasible",))
             txt = repr(sorted(map(repr, out)))
             self._mentions_ignored = "ignored-element" in txt
             r = hashlib.sha1(txt.encode()).hexdigest()
@@ -234,6 +236,9 @@ class Summariser:
             k = self.cond(c)
             if k is not None:
                 conds.add(k)
+        conds = consolidate_discr(conds)
+        if conds is None or contradictory(conds):
+            return ("infeasible",)
         end = "loop" if p.end.startswith("loop:") else p.end
         self.upenv = upenv
         carried = ()
@@ -418,6 +423,8 @@ class Summariser:
                 return r
             if len(e[3]) == 1 and callee_is(e, *TRANSPARENT):
                 return self.ex(e[3][0])
+            if len(e[3]) == 1 and callee_is(e, "Clone::clone") and (e[2] or "").startswith(("<std::ops::Range", "<usize as", "<u32 as", "<i64 as", "<bool as", "<f64 as", "<f32 as")):
+                return self.ex(e[3][0])      # a copy of a plain value is that value
             if len(e[3]) == 1 and callee_is(e, "Vec::len", "[T]::len"):
                 return ("len", self.ex(e[3][0]))
             if len(e[3]) == 1 and (callee_is(e, *NUMCONV) or callee_is(e, "Into::into", "From::from")):
@@ -497,6 +504,69 @@ def concrete_instantiation(full, fid):
     a = _WILD.sub("", normfull(full))
     b = _WILD.sub("", normfull(fid))
     return normfull(full) if a != b else None
+
+
+def consolidate_discr(conds):
+    """tests of one discriminant spelled as a `match` (discr == v / not in {..}) or as comparisons with constants
+    (`ord == Greater`, `ord != Less`) are brought to one form; for an Ordering (3 values) a set of such tests is replaced
+    by the value it leaves, and a contradictory set makes the path infeasible (None)"""
+    by = {}
+    rest = set()
+    for c in conds:
+        o = v = None
+        neg = False
+        if c[0] == "discr":
+            o, v = c[1], [c[2]]
+        elif c[0] == "discr-not":
+            o, v, neg = c[1], list(c[2]), True
+        elif c[0] == "rel" and c[1] in ("Eq", "Ne"):
+            for x, y in ((c[2], c[3]), (c[3], c[2])):
+                if isinstance(x, tuple) and x and x[0] == "int" and isinstance(y, tuple) and y and y[0] == "discr":
+                    o, v, neg = y[1], [x[1]], c[1] == "Ne"
+        if o is None:
+            rest.add(c)
+            continue
+        d = by.setdefault(repr(o), {"o": o, "eq": set(), "ne": set()})
+        if isinstance(o, tuple) and o and o[0] == "call" and isinstance(o[1], str) and o[1].endswith("std::cmp::Ord>::cmp"):
+            v = [(-1 if x == 255 else x) for x in v]       # Ordering::Less is -1i8: a SwitchInt spells it 255
+        (d["ne"] if neg else d["eq"]).update(v)
+    for d in by.values():
+        o = d["o"]
+        is_ordering = isinstance(o, tuple) and o and o[0] == "call" and isinstance(o[1], str) and o[1].endswith("std::cmp::Ord>::cmp")
+        if len(d["eq"]) > 1:
+            return None
+        if d["eq"]:
+            v = next(iter(d["eq"]))
+            if v in d["ne"]:
+                return None
+            rest.add(("discr", o, v))
+            continue
+        if is_ordering:
+            feas = {-1, 0, 1} - d["ne"]
+            if not feas:
+                return None
+            if len(feas) == 1:
+                rest.add(("discr", o, next(iter(feas))))
+                continue
+        rest.add(("discr-not", o, tuple(sorted(d["ne"]))))
+    return rest
+
+
+def contradictory(conds):
+    """two oriented relations over the same pair of expressions that cannot hold together (a < b with b <= a, a == b with a != b, ...)"""
+    rel = {}
+    for c in conds:
+        if c[0] == "rel":
+            rel.setdefault((repr(c[2]), repr(c[3])), set()).add(c[1])
+    for (a, b), ops in rel.items():
+        if "Eq" in ops and "Ne" in ops:
+            return True
+        rev = rel.get((b, a), set())
+        if "Lt" in ops and (("Lt" in rev) or ("Le" in rev) or ("Eq" in ops) or ("Eq" in rev)):
+            return True
+        if "Le" in ops and "Lt" in rev:
+            return True
+    return False
 
 
 def place_path(e):
